@@ -579,3 +579,167 @@ Proof.
       * destruct O as [(_ & -> & _)|O]; [unfold zlen in E0; cbn in E0; lia|lia].
       * apply choose_ridx_range; lia.
 Qed.
+
+(* ---- exemplar clauses over whole runs ---- *)
+Definition frame (h h' : hist) : Prop := h_ex h' = h_ex h /\ h_clock h' = h_clock h /\ h_cfg h' = h_cfg h.
+Lemma frame_refl h : frame h h. Proof. repeat split. Qed.
+Lemma frame_trans a b c : frame a b -> frame b c -> frame a c.
+Proof. intros (A1 & A2 & A3) (B1 & B2 & B3). repeat split; congruence. Qed.
+
+Lemma maybe_reset_frame h v h' b : maybe_reset h v = Some (h', b) -> frame h h'.
+Proof.
+  unfold maybe_reset. destruct (_ || _ || _); [intros E; inversion E; apply frame_refl|].
+  destruct (negb _); [discriminate|]. intros E. inversion E. repeat split.
+Qed.
+
+Lemma maybe_widen_frame h h' b : maybe_widen h = Some (h', b) -> frame h h'.
+Proof.
+  unfold maybe_widen. destruct (fge _ _); [intros E; inversion E; apply frame_refl|].
+  destruct (_ =? max_int32); [intros E; inversion E; apply frame_refl|].
+  destruct (fgt _ _); [intros E; inversion E; apply frame_refl|].
+  destruct (m_del (c_neg (h_cold h)) _) as [neg1 ln]. destruct (m_del (c_pos (h_cold h)) _) as [pos1 lp].
+  destruct (negb _); [discriminate|]. unfold add_and_reset_counts.
+  destruct (widen_merge _ _ _ _ _ _) as [[[[cp hp] hzb1] hbn1] cbn1].
+  destruct (widen_merge _ _ _ _ _ _) as [[[[cn hn] hzb2] hbn2] cbn2].
+  intros E. inversion E. repeat split.
+Qed.
+
+Lemma double_width_frame h h' : double_width h = Some h' -> frame h h'.
+Proof.
+  unfold double_width. destruct (_ =? -4); [intros E; inversion E; apply frame_refl|].
+  destruct (negb _); [discriminate|]. unfold add_and_reset_counts.
+  destruct (double_merge _ _ _) as [hp bn1]. destruct (double_merge _ _ _) as [hn bn2].
+  intros E. inversion E. repeat split.
+Qed.
+
+Lemma observe_frame h v h' : observe h v = Some h' -> frame h h'.
+Proof.
+  unfold observe, observe_k. set (h1 := with_sets h _ _ _).
+  assert (F1 : frame h h1) by (repeat split).
+  destruct (is_nan v); [intros E; inversion E; exact F1|].
+  unfold limit_buckets. destruct (_ =? 0); [intros E; inversion E; exact F1|].
+  destruct (_ <=? _); [intros E; inversion E; exact F1|].
+  destruct (maybe_reset h1 v) as [[h2 [|]]|] eqn:R; [| |discriminate].
+  - intros E. inversion E. subst. apply (frame_trans _ _ _ F1 (maybe_reset_frame _ _ _ _ R)).
+  - pose proof (frame_trans _ _ _ F1 (maybe_reset_frame _ _ _ _ R)) as F2.
+    match goal with |- context [maybe_widen ?x] => set (h3 := x) end.
+    assert (F3 : frame h h3).
+    { unfold h3. destruct (_ && _); [|exact F2]. destruct F2 as (A & B & C). repeat split; cbn; assumption. }
+    destruct (maybe_widen h3) as [[h4 [|]]|] eqn:W; [| |discriminate].
+    + intros E. inversion E. subst. apply (frame_trans _ _ _ F3 (maybe_widen_frame _ _ _ W)).
+    + destruct (double_width h4) as [h5|] eqn:D; [|discriminate]. intros E. inversion E. subst.
+      apply (frame_trans _ _ _ (frame_trans _ _ _ F3 (maybe_widen_frame _ _ _ W)) (double_width_frame _ _ D)).
+Qed.
+
+Lemma write_frame h h' w : write h = Some (h', w) ->
+  frame h h' /\ w_ex w = (if ex_disabled (h_cfg h) then [] else h_ex h).
+Proof.
+  unfold write. destruct (negb _); [discriminate|].
+  destruct (make_buckets (c_neg (h_hot h))) as [nsp nds]. destruct (make_buckets (c_pos (h_hot h))) as [psp pds].
+  unfold add_and_reset_counts. destruct (merge_reset _ _ _) as [hp bn1]. destruct (merge_reset _ _ _) as [hn bn2].
+  intros E. inversion E. repeat split.
+Qed.
+
+Lemma timer_reset_frame h h' : timer_reset h = Some h' -> frame h h'.
+Proof. unfold timer_reset. destruct (negb _); [discriminate|]. intros E. inversion E. repeat split. Qed.
+
+(* the exemplar-carrying non-NaN observations so far, with the clock at the call *)
+Definition ex_obs_step (h : hist) (exs : list exemplar) (o : op) : list exemplar :=
+  match o with OObsEx v _ => if is_nan v then exs else exs ++ [(v, h_clock h)] | _ => exs end.
+
+Record ex_inv (h : hist) (exs : list exemplar) : Prop := mkExInv {
+  x_len : zlen (h_ex h) <= ex_cap (h_cfg h);
+  x_sorted : ex_sorted (h_ex h) = true;
+  x_nn : vnn (h_ex h);
+  x_from : forall x, In x (h_ex h) -> In x exs;
+  x_last : ex_disabled (h_cfg h) = false -> forall e, last_opt exs = Some e -> In e (h_ex h)
+}.
+
+Lemma ex_cap_nonneg g : 0 <= ex_cap g.
+Proof. unfold ex_cap. destruct (g_ex_max g =? 0); [lia|]. destruct (Z.ltb_spec (g_ex_max g) 0); lia. Qed.
+
+Lemma ex_inv_new g : ex_inv (new_hist g) [].
+Proof.
+  constructor; cbn; try reflexivity; try (intros x []); [apply ex_cap_nonneg|]. intros _ e E. discriminate.
+Qed.
+
+Lemma ex_inv_frame h h' exs : frame h h' -> ex_inv h exs -> ex_inv h' exs.
+Proof. intros (A & B & C) [X1 X2 X3 X4 X5]. constructor; rewrite ?A, ?C; assumption. Qed.
+
+Lemma last_opt_snoc {A} (l : list A) x : last_opt (l ++ [x]) = Some x.
+Proof. unfold last_opt. rewrite rev_app_distr. reflexivity. Qed.
+
+Lemma step_ex_inv h exs o h' out : ex_inv h exs -> step h o = Some (h', out) ->
+  ex_inv h' (ex_obs_step h exs o) /\ h_cfg h' = h_cfg h /\
+  (forall w, out = Some w -> w_ex w = (if ex_disabled (h_cfg h) then [] else h_ex h)).
+Proof.
+  intros X E. destruct o as [v|v orc| |d|]; cbn [step ex_obs_step] in *.
+  - destruct (observe h v) as [h1|] eqn:O; [|discriminate]. inversion E. subst.
+    pose proof (observe_frame h v h' O) as F. split; [apply (ex_inv_frame h h' exs F X)|]. split; [apply F|intros w Hw; discriminate].
+  - destruct (observe h v) as [h1|] eqn:O; [|discriminate]. inversion E. subst. clear E.
+    pose proof (observe_frame h v h1 O) as F. pose proof (ex_inv_frame h h1 exs F X) as X1.
+    destruct F as (F1 & F2 & F3). unfold update_exemplar. split; [|split; [destruct (is_nan v); cbn; exact F3|intros w Hw; discriminate]].
+    destruct (is_nan v) eqn:Nv; [exact X1|]. destruct X1 as [L S N Fr La].
+    constructor; cbn [h_ex h_cfg].
+    + apply exemplars_bounded_lemma. exact L.
+    + apply exemplars_sorted_lemma; [exact S|exact N|exact Nv].
+    + intros x Hx. apply exemplars_from_lemma in Hx. destruct Hx as [->|Hx]; [exact Nv|apply N; exact Hx].
+    + intros x Hx. apply exemplars_from_lemma in Hx. apply in_or_app. rewrite <- F2.
+      destruct Hx as [->|Hx]; [right; left; reflexivity|left; apply Fr; exact Hx].
+    + intros Hd e Hl. rewrite last_opt_snoc in Hl. inversion Hl. subst e. rewrite <- F2.
+      apply exemplars_latest_lemma. exact Hd.
+  - destruct (write h) as [[h1 w]|] eqn:W; [|discriminate]. inversion E. subst.
+    destruct (write_frame h h' w W) as [F Ew]. split; [apply (ex_inv_frame h h' exs F X)|]. split; [apply F|].
+    intros w0 Hw. inversion Hw. subst. exact Ew.
+  - inversion E. subst. split; [|split; [reflexivity|intros w Hw; discriminate]].
+    apply (ex_inv_frame h _ exs); [repeat split|exact X].
+  - destruct (h_sched h).
+    + destruct (timer_reset h) as [h1|] eqn:T; [|discriminate]. inversion E. subst.
+      pose proof (timer_reset_frame h h' T) as F. split; [apply (ex_inv_frame h h' exs F X)|]. split; [apply F|intros w Hw; discriminate].
+    + inversion E. subst. split; [exact X|]. split; [reflexivity|intros w Hw; discriminate].
+Qed.
+
+Lemma ex_eqb_refl x : ex_eqb x x = true.
+Proof. unfold ex_eqb, fbits_eq. rewrite !Z.eqb_refl. reflexivity. Qed.
+
+(* what a Write exposes satisfies the SPECIFICATION's exemplar clauses *)
+Lemma ex_inv_check h exs : ex_inv h exs ->
+  exemplars_check (h_cfg h) exs (if ex_disabled (h_cfg h) then [] else h_ex h) = true.
+Proof.
+  intros [L S N Fr La]. unfold exemplars_check. unfold ex_disabled in *.
+  destruct (Z.ltb_spec (g_ex_max (h_cfg h)) 0) as [Hd|Hd]; [reflexivity|].
+  destruct (Z.leb_spec (zlen (h_ex h)) (ex_cap (h_cfg h))); [|lia]. rewrite S. cbn [andb].
+  assert (A : forallb (fun e => existsb (ex_eqb e) exs) (h_ex h) = true).
+  { apply forallb_forall. intros x Hx. apply existsb_exists. exists x. split; [apply Fr; exact Hx|apply ex_eqb_refl]. }
+  rewrite A. cbn [andb]. destruct (last_opt exs) as [e|] eqn:El; [|reflexivity].
+  apply existsb_exists. exists e. split; [apply (La eq_refl e eq_refl)|apply ex_eqb_refl].
+Qed.
+
+(* the run paired with the exemplar-carrying observations made before each Write *)
+Fixpoint run_exs (h : hist) (exs : list exemplar) (ops : list op) : option (list (wout * list exemplar)) :=
+  match ops with
+  | [] => Some []
+  | o :: r =>
+      match step h o with
+      | None => None
+      | Some (h', None) => run_exs h' (ex_obs_step h exs o) r
+      | Some (h', Some w) => option_map (cons (w, exs)) (run_exs h' exs r)
+      end
+  end.
+
+Lemma exemplars_run_lemma : forall ops h exs g, ex_inv h exs -> h_cfg h = g ->
+  match run_exs h exs ops with
+  | Some l => Forall (fun p => exemplars_check g (snd p) (w_ex (fst p)) = true) l
+  | None => True
+  end.
+Proof.
+  induction ops as [|o r IH]; intros h exs g X Hg; [constructor|]. cbn [run_exs].
+  destruct (step h o) as [[h' [w|]]|] eqn:St; [| |exact I].
+  - destruct (step_ex_inv h exs o h' (Some w) X St) as (X' & Eg & Ew).
+    assert (Ho : ex_obs_step h exs o = exs) by (destruct o; cbn in St |- *; try reflexivity; destruct (observe h v); discriminate).
+    rewrite Ho in X'. specialize (IH h' exs g X' ltac:(congruence)).
+    destruct (run_exs h' exs r) as [l|]; [|exact I]. cbn [option_map]. constructor; [|exact IH].
+    cbn [fst snd]. rewrite (Ew w eq_refl), <- Hg. apply ex_inv_check. exact X.
+  - destruct (step_ex_inv h exs o h' None X St) as (X' & Eg & _).
+    apply (IH h' _ g X'). congruence.
+Qed.
